@@ -5,6 +5,11 @@ or a type-checked structural rewrite.
 Every instance is recorded in the woven file (original text base64 in the marker) and
 listed in the evidence."""
 SHIMS = {
+    # Verus: "does not yet support destructuring assignment".  (A, B) = (c, d) with c, d plain locals == A = c; B = d;
+    'split-tuple-assign': dict(pattern=r'\(self\.lines, self\.columns\) = \(lines, columns\);', replace=r'self.lines = lines; self.columns = columns;',
+                               spec='Rust semantics of destructuring assignment with local right-hand sides'),
+    # Verus panics ("mk_range &u32") on a shift whose left operand is a reference; std forwards `&u32 << i32` to `u32 << i32`
+    'deref-shl': dict(pattern=r'(?<=\|m\| )m << 5', replace=r'*m << 5', spec='std: <&u32 as Shl<i32>>::shl(m, n) == *m << n (forward_ref_binop)'),
     'vec-from-slice': dict(pattern=r'Vec::from\((\w+)\)', replace=r'vec_from_slice(\1)', spec='r@ == s@'),
     # modes.iter().map(CLOSURE).collect::<Vec<_>>()  -> slice_map_collect(modes, CLOSURE); the closure text is untouched (and annotated by @closure)
     'map-collect-open': dict(pattern=r'\b(\w+)\.iter\(\)\.map\((?=\|m\|)', replace=r'slice_map_collect(\1, ', spec='elementwise map, see slice_map_collect'),
@@ -15,7 +20,7 @@ SHIMS = {
     'buffer-set-reverse': dict(pattern=r'for line in self\.buffer\.values_mut\(\) \{\s*(?://[^\n]*\n\s*)*for x in line\.iter_mut\(\) \{\s*x\.1\.reverse = (true|false);\s*\}\s*\}', replace=r'buffer_set_reverse(&mut self.buffer, \1);', spec='every stored cell: reverse := R, nothing else'),
     'buffer-remove-columns': dict(pattern=r'for line in self\.buffer\.values_mut\(\) \{\s*for x in (\w+)\.\.(self\.\w+) \{\s*line\.remove\(&x\);\s*\}\s*\}', replace=r'buffer_remove_columns(&mut self.buffer, \1, \2);', spec='every stored row: keys lo..hi removed, nothing else'),
     # HashSet<u32>::extend(range)  ->  call-out with spec  S' = S u [a,b)
-    'hs-extend-range': dict(pattern=r'\b(self\.\w+)\.extend\(((?:[^();]|\([^()]*\))*)\);', replace=r'hs_extend_range(&mut \1, \2);',
+    'hs-extend-range': dict(pattern=r'\b(self\.dirty)\.extend\(((?:[^();]|\([^()]*\))*)\);', replace=r'hs_extend_range(&mut \1, \2);',
                             spec="forall v: S'.contains(v) == (S.contains(v) || a <= v < b)"),
     # Box<dyn Iterator<Item = u32>> holding only Range<u32> values -> the Range itself.
     # Sound iff every boxed expression is a Range<u32>; rustc re-checks that on the woven text
